@@ -47,7 +47,9 @@ type indexedMessageIterator struct {
 	topics map[string]bool
 	start  uint64
 	end    uint64
-	order  ReadOrder
+	// endUnbounded: no upper bound was requested; end is not an exclusive limit.
+	endUnbounded bool
+	order        ReadOrder
 
 	channels          slicemap[Channel]
 	schemas           slicemap[Schema]
@@ -166,7 +168,8 @@ func (it *indexedMessageIterator) parseSummarySection() error {
 			// if the chunk overlaps with the requested parameters, load it. Pruning by topic happens
 			// once the whole summary has been read (see TokenFooter), because channel records may
 			// appear after chunk indexes and may be absent altogether.
-			if (it.end == 0 && it.start == 0) || (idx.MessageStartTime < it.end && idx.MessageEndTime >= it.start) {
+			if (it.end == 0 && it.start == 0) ||
+				((idx.MessageStartTime < it.end || it.endUnbounded) && idx.MessageEndTime >= it.start) {
 				it.chunkIndexes = append(it.chunkIndexes, idx)
 			}
 		case TokenStatistics:
@@ -333,7 +336,7 @@ func (it *indexedMessageIterator) loadChunk(chunkIndex *ChunkIndex) error {
 				return fmt.Errorf("could not parse message in chunk: %w", err)
 			}
 			if it.channels.Get(msg.ChannelID) != nil {
-				if msg.LogTime >= it.start && msg.LogTime < it.end {
+				if msg.LogTime >= it.start && (msg.LogTime < it.end || it.endUnbounded) {
 					it.messageIndexes = append(it.messageIndexes, messageIndexWithChunkSlot{
 						timestamp:      msg.LogTime,
 						offset:         offset,
